@@ -61,6 +61,8 @@ def dp(P, C, variant=None):
            "arm falls through into another arm's assignments", floor=2)
     C.rule("DP-3", "known mixed-order arms: the guard list orders_are(*this,{o...}) and the template list <Float,o...> are identical, for both pointers", floor=2 if variant is None else 0)
     C.rule("DP-4", "the constant order fed to the dispatch is order[0] when all orders agree and 0 otherwise", floor=2)
+    if variant is None:
+        dp8(P, C)
     funcs = P.variants.get(variant, {}).values() if variant else P.functions.values()
     fs = sorted([f for f in funcs if f.name == "get_evaluator" and f.unit == (variant or "driver")], key=lambda f: str(f.targs))
     if len(fs) != 2:
@@ -204,6 +206,49 @@ def dp7(P, C):
         ok = vals.get("nchunks") == prod and vals.get("chunk") == orders[-1] + 1 and vals.get("D") == len(orders)
         C.ob("DP-7", "%s<%s>" % (f.name, ",".join(str(t) for t in ta)), "constexpr", ok, f.where(),
              "nchunks=%s (required %d), chunk=%s (required %d), D=%s (required %d)" % (vals.get("nchunks"), prod, vals.get("chunk"), orders[-1] + 1, vals.get("D"), len(orders)))
+
+
+def dp8(P, C):
+    C.rule("DP-8", "orders_are, the predicate that admits a table to a known-order specialisation, compares position by position: false on a length "
+           "mismatch, false at the first dimension whose order differs from the list element at the same position (one counter from 0, "
+           "advanced once per element), true otherwise — the known-order cores fix the order of each *position* at compile time", floor=3)
+    fs = [g for g in P.fns("orders_are") if g.unit == "driver"]
+    if not fs:
+        raise core.AnalysisBroken("DP-8: orders_are not found")
+    f = fs[0]
+    kids = [c for c in f.ch(f.body) if c >= 0]
+    txt = [f.alpha(c)[0].replace(" ", "") for c in kids]
+    ok1 = len(kids) >= 1 and txt[0] == "IfStmt(($1.size()!=$0.get_ndim()),return0)"
+    C.ob("DP-8", "orders_are", "length-first", ok1, f.loc(kids[0]) if kids else f.where(), "first statement rejects a list of the wrong length: %s" % (txt[0] if txt else None))
+    loops = [c for c in kids if f.k(c) == "CXXForRangeStmt"]
+    ok2 = False
+    det = "no range-for over the list"
+    if len(loops) == 1:
+        whole, order = f.alpha(f.body)
+        whole = whole.replace(" ", "")
+        # numbering over the whole body: v0 the counter, v1..v3 the range-for's hidden range/begin/end, v4 the element
+        m = re.search(r"CXXForRangeStmt\((.*)\),return1\)$", whole)
+        loop_txt = m.group(1) if m else ""
+        head_ok = loop_txt.startswith("conststd::initializer_list<unsignedint>&v1=$1,") and ",(v2!=v3),(++v2)," in loop_txt
+        body_ok = loop_txt.endswith("CompoundStmt(IfStmt(($0.get_order(v0)!=v4),return0),(v0++))") or \
+            loop_txt.endswith("CompoundStmt(IfStmt(($0.get_order(v0)!=v4),return0),(++v0))")
+        elem_ok = "v4=(*v2)" in loop_txt
+        cnt = order[0] if order else None
+        ini = None
+        for c in kids:
+            if f.k(c) == "DeclStmt":
+                for d in f.nodes[c]["decls"]:
+                    if d.get("id") == cnt and d.get("init", -1) >= 0:
+                        ini = f.nodes[f.strip(d["init"])].get("cv")
+        ok2 = head_ok and body_ok and elem_ok and ini == 0
+        det = "range-for over the list (%s); element = *iterator (%s); body compares get_order(counter) with the element and advances the counter (%s); counter starts at %s" % (
+            head_ok, elem_ok, body_ok, ini)
+    C.ob("DP-8", "orders_are", "position-wise", ok2, f.loc(loops[0]) if loops else f.where(), det)
+    rets = [f.alpha(i)[0].replace(" ", "") for i in f.walk() if f.k(i) == "ReturnStmt"]
+    calls_ = sorted(set(cal["name"] for i, cal in f.calls() if cal))
+    ok3 = txt and txt[-1] == "return1" and rets.count("return1") == 1 and set(calls_) <= {"size", "get_ndim", "get_order", "begin", "end", "operator!=", "operator++", "operator*"}
+    C.ob("DP-8", "orders_are", "true-only-at-the-end", bool(ok3), f.where(),
+         "returns true only after every position matched; no other comparison routine is called (calls: %s)" % calls_)
 
 
 # ------------------------------------------------------------------ CL-1 core clones
